@@ -1,5 +1,6 @@
 """C04 - type overwriting injects exactly one real type error (frame, provenance, flags)."""
 import ast
+import re
 
 from ..repo import AnalysisError
 from ..report import Ob, RuleSpec
@@ -159,6 +160,27 @@ def r3_provenance(repo):
                 root = src(n.targets[0]).split(".")[0]
                 od = g.defs_reaching(call.args[0].id, call) if isinstance(call.args[0], ast.Name) else []
                 exprs = [src(d[1]) for d in od if isinstance(d[1], ast.AST)]
+                # the old type may come out of a helper of the same class (`sel = self._select(n, graph)` ...
+                # `tp, old = sel`): what the helper returns, with its parameters replaced by the arguments, counts as well
+                prov_ = Prov(f.node)
+                # through tuple packing / unpacking (`sel = (tp, t)` ... `tp, old = sel`): every source expression counts;
+                # `__h` is the suffix the normaliser gives to the locals of an inlined helper
+                exprs += [re.sub(r"__h\d*\b", "", src(s_)) for s_ in prov_.sources(call.args[0], at=call)
+                          if isinstance(s_, ast.AST)]
+                for s_ in list(prov_.sources(call.args[0], at=call)):
+                    if not isinstance(s_, ast.Call):
+                        continue
+                    tg, _how = repo.resolve_call(s_, f)
+                    for h_ in [t for t in tg if t.module is f.module and t is not f][:1]:
+                        hp = h_.params[1:] if (h_.cls is not None and h_.params[:1] == ["self"]) else h_.params
+                        sub = {p_: src(a_) for p_, a_ in zip(hp, s_.args)}
+                        for r_ in iter_own_nodes(h_.node):
+                            if isinstance(r_, ast.Return) and r_.value is not None:
+                                for el in (r_.value.elts if isinstance(r_.value, ast.Tuple) else [r_.value]):
+                                    t_ = src(el)
+                                    for p_, a_ in sub.items():
+                                        t_ = re.sub(r"\b%s\b" % re.escape(p_), a_, t_)
+                                    exprs.append(t_)
                 if a == "type_args[]":
                     want = [e for e in exprs if e.startswith("%s.t.get_type_variable_assignments()[" % root)]
                     idx = n.targets[0].slice
